@@ -36,6 +36,23 @@ def declSep : String := "\\n"
 def trimRemaining : Bool := true
 def trailerMode : TrailerMode := .lineWhenBlockEnd
 def aliasOmitRule : AliasOmitRule := .suffixAndName
+inductive NameHelper
+  | lcFirst
+  | ucFirst
+  | toGo
+  | toGoPrivate
+  | title
+  deriving DecidableEq, Repr
+def lookupRecvSingle : NameHelper := .lcFirst
+def lookupRecvFollow : NameHelper := .lcFirst
+def markStructSingle : NameHelper := .lcFirst
+def markStructFollow : NameHelper := .lcFirst
+def lookupAccessorSingle : NameHelper := .title
+def lookupAccessorFollow : NameHelper := .title
+def emitRecv : NameHelper := .lcFirst
+def emitAccessor : NameHelper := .ucFirst
+def emitAccessorRet : NameHelper := .lcFirst
+def emitStruct : NameHelper := .lcFirst
 end GqlgenVerif.Gen.RewriteOffsets
 """
 
@@ -64,10 +81,10 @@ def expected_decls(pf):
     for m in pf["methods"]:
         out.append(("func", m["recv"], m["name"], m["namedV"], m["namedE"], m["impl"].strip(),
                     (m["doc"] + "\n") if m["doc"] else ""))
-    for o in pf["objects"]:
-        out.append(("func", "Resolver", uc_first(o)))
-    for o in pf["objects"]:
-        out.append(("gen", "TYPE", lc_first(o) + "Resolver"))
+    for a in pf["accessors"]:
+        out.append(("func", "Resolver", a))
+    for t in pf["structs"]:
+        out.append(("gen", "TYPE", t))
     return out
 
 
@@ -177,9 +194,19 @@ def classify(o, v, pred):
             elif d["doc"].startswith("\\"):
                 cause = "leading-backslash"
         shape["cause"] = cause
+        # which GraphQL type the receiver belongs to, and what the name helpers make of that type name
+        owner = [n for n in o.get("names", []) if v["recv"] in (n["lcFirst"] + "Resolver", n["goPrivate"] + "Resolver")]
+        if owner and cause == "other" and len({owner[0]["lcFirst"], owner[0]["goPrivate"]}) > 1:
+            cause = "type-name-mangled-differently-by-LcFirst-and-ToGoPrivate"
+        shape["cause"] = cause
+        g, e = first_match(o["after"], v["recv"], v["name"])
         inp = {"file": f["name"] if f else None, "method": "%s.%s" % (v["recv"], v["name"]),
+               "graphql_type": owner[0] if owner else None,
                "doc": d["rawDoc"] if d else None, "body": d["inner"] if d else None,
-               "named": [d["namedV"], d["namedE"]] if d else None}
+               "named": [d["namedV"], d["namedE"]] if d else None,
+               "regenerated_as": ({"file": g["name"], "doc": e["rawDoc"], "body": e["inner"], "named": [e["namedV"], e["namedE"]]} if e else None),
+               "user_body_now_in_warning_block_of": [a["name"] for a in o["after"] if d and d["inner"].strip() and d["inner"].strip() in a.get("remaining", "")],
+               "schema": [{"type": x["name"], "file": x["file"], "resolver_fields": [y["name"] for y in x["fields"] if y["isResolver"]]} for x in o["schema"]]}
     elif kind == "import-lost":
         bf = [f for f in o["before"] if f["name"] == v["file"]][0]
         imp = [i for i in bf["imports"] if i["path"] == v["path"] and i["alias"] == v["alias"]][0]
@@ -221,7 +248,8 @@ def run(ctx):
         "go/ast CommentGroup.Text() (what GetMethodComment returns) is an input of the model (field `doc`), not modelled",
         "Go's type checker is not modelled: `compiles after an add-only change` is proved structurally (every method, named result and import survives, nothing is left over) and sampled through api.Generate's own package validation",
         "templates.ToGo / gqlparser / codegen.BuildData produce the object list the model takes as Schema' (computed independently by the harness and confirmed by the declaration-sequence comparison)",
-        "GraphQL type names without underscores (cases.Title = ucFirst); input-object resolvers, custom resolver templates, preserve_resolver and ResolverImplementer plugins are outside the model",
+        "templates.ToGo / ToGoPrivate / cases.Title are not modelled: their values for every type name are inputs of the model (Cfg.names, computed by the harness with the real functions); WHICH helper is applied where is regenerated from resolver.go / resolver.gotpl; LcFirst / UcFirst are computed by the model (ASCII) and tied by the declaration-sequence comparison",
+        "type names with a leading underscore are not generated (gqlgen's own generated.go does not compile for them: ResolverRoot declares ucFirst(name)(), the executor calls cases.Title(name)()); input-object resolvers, custom resolver templates, preserve_resolver and ResolverImplementer plugins are outside the model",
     ]
     ok_extract = ctx.extract("RewriteOffsets")
     proved = ok_extract and ctx.prove(props=["GqlgenVerif.Props.C19"])
@@ -258,7 +286,7 @@ def run(ctx):
     lines = []
     for o in steps:
         slim = {"layout": o["layout"], "omitTemplateComment": o.get("omitTemplateComment", False),
-                "before": o["before"], "schema": o["schema"], "after": o["after"]}
+                "before": o["before"], "schema": o["schema"], "after": o["after"], "names": o.get("names", [])}
         js = json.dumps(slim)
         lines.append("regen " + js)
         lines.append("chk " + js)
@@ -270,6 +298,7 @@ def run(ctx):
     nviol = 0
     samples = []
     prev_ok = {}
+    mangled_types = set()
     gen_facts = json.loads(ctx.driver("c19", ["gen"])[0]) if have_driver else {}
     for k, o in enumerate(steps):
         pred = json.loads(outs[2 * k]) if outs else []
@@ -284,6 +313,29 @@ def run(ctx):
             branch["op:" + op.split(" ")[0]] += 1
         if o["kind"] != "random":
             branch["directed:" + o["kind"]] += 1
+        # name-mangling classes of the object types that have a user-written resolver body in this step
+        impl_recv = {d["recv"] for f in o["before"] for d in f["decls"] if d["kind"] == "func" and d["hasBody"] and d["recv"].endswith("Resolver")
+                     and d["recv"] != "Resolver" and "not implemented" not in d["inner"]}
+        for n in o.get("names", []):
+            if n["lcFirst"] + "Resolver" not in impl_recv:
+                continue
+            cls = []
+            if n["lcFirst"] != n["goPrivate"]:
+                cls.append("LcFirst!=ToGoPrivate")
+            if n["ucFirst"] != n["goPublic"]:
+                cls.append("UcFirst!=ToGo")
+            if "_" in n["name"]:
+                cls.append("underscore")
+            if n["name"][:1].islower():
+                cls.append("leading-lower-case")
+            if any(c.isdigit() for c in n["name"]):
+                cls.append("digit")
+            if len(n["name"]) == 1:
+                cls.append("single-letter")
+            for c in cls or ["ordinary"]:
+                branch["implemented-type-name:" + c] += 1
+            if cls:
+                mangled_types.add(n["name"])
         edited = [d for f in o["before"] for d in f["decls"] if d["kind"] == "func" and d["hasBody"] and d["recv"].endswith("Resolver")
                   and d["recv"] != "Resolver" and "not implemented" not in d["inner"]]
         left = [p for p in pred if p["remaining"]]
@@ -359,6 +411,9 @@ def run(ctx):
         if not any(not nf for _, nf in ctx.violations):
             ctx.violation({"kind": "proof", "failing": ctx.proof_failure, "regenerated_facts": gen_facts}, no_failing_input=True)
 
+    # replays that carry a concrete failing input first, the broken tie / broken proof records after them
+    ctx.violations.sort(key=lambda pn: bool(pn[1]))
+
     ctx.cov.update({
         "evaluations": len(steps),
         "distinct_nontrivial": len(nontriv),
@@ -368,6 +423,7 @@ def run(ctx):
         "spec_violations_on_impl_output": nviol,
         "traces_validated_against_impl": len(steps),
         "regenerated_facts": gen_facts,
+        "mangled_type_names_with_user_bodies": sorted(mangled_types),
         "samples": samples,
         "sampled_not_proved": ["the regenerated package type-checks after an add-only change (api.Generate's own validation)",
                                "go/parser re-reads the written file as `reparse` says"],
